@@ -19,7 +19,7 @@ RULE = ("positive random spectra with UNEQUAL axis lengths 2-7 (1-4 axes; 3x3 fo
         "c in 2^-70..2^40 (incl. factors that push the total below f64::EPSILON); monomorphic cells up to 3e15. Allowance abs 1e-9 + rel 1e-9; relations whose value is non-finite (zero denominator) are skipped, except that with one NaN entry in a polymorphic cell a statistic must stay NaN (or stay the same finite number) under fold(fill 0). "
         "Non-trivial: every relation on a spectrum with unequal axes (or 1-D); distinct = digest(spectrum, relation).")
 ASSUMPTIONS = ["relations are between outputs of the real code only; absolute correctness is C06's job"]
-FLOORS = {"quick": {"evaluations": 1500, "distinct_nontrivial": 1000, "counts": {"rel_f3_f2": 60, "rel_f4_f2": 60, "rel_fold": 500, "rel_monomorphic": 500, "rel_swap": 200, "rel_scale": 500, "C_runs": 100, "large_spectra": 100}},
+FLOORS = {"quick": {"evaluations": 1500, "distinct_nontrivial": 1000, "counts": {"rel_f3_f2": 60, "rel_f4_f2": 60, "rel_fold": 500, "rel_monomorphic": 500, "rel_swap": 200, "rel_scale": 500, "C_runs": 100, "large_spectra": 100, "C_large_spectra": 30}},
           "thorough": {"evaluations": 80000, "distinct_nontrivial": 60000, "counts": {"rel_f3_f2": 3000, "rel_f4_f2": 3000, "rel_fold": 30000, "rel_swap": 10000, "C_runs": 3000}}}
 NSHARD = 32
 FOLD_INV = {1: ["pi", "theta", "s", "d-tajima"], 2: ["pi-xy", "f2", "fst", "king", "r0", "r1", "s"], 3: ["f3", "s"], 4: ["f4", "s"]}
@@ -186,6 +186,10 @@ def check_C(S, p):
         rng = rng_for(seed, "c14", p["name"], "C", i)
         d = rng.choice([1, 2, 3])
         shape = [rng.randint(3, 9)] if d == 1 else rng.sample(range(2, 7), d)
+        if i == 1:
+            # once per shard: a spectrum with 2^14 and more entries through the binary (several statistics in one call)
+            shape = {1: [rng.choice([16385, 20001])], 2: rng.choice([[129, 131], [150, 160], [3, 6001]]), 3: rng.choice([[3, 81, 83], [27, 25, 29]])}[d]
+            S.count("C_large_spectra")
         data = [rng.uniform(0.5, 50) for _ in range(O.prod(shape))]
         inp = GS.npy_bytes(shape, data)
         names = {1: "pi,theta,s,d-tajima", 2: "pi-xy,f2,fst,s", 3: "f3,s"}[d]
